@@ -28,6 +28,15 @@ CHECKS = {
  "C06": dict(technique="differential runtime monitoring over long evaluation histories on one engine vs an executable binding model; H-slot freed-slot-access monitor armed",
              text="Exploration: seeded histories of up to 260 (quick) / 900 (thorough) top-level units over 8 names (hundreds of shadowings, so the global-slot recycler runs), with old functions kept alive in containers and probed every 7 units, failing units of both kinds; every unit's observation is compared with the reference machine's unit/binding model; JIT on and off.",
              note="Trusted: Machine.run_unit as the binding model. After the first divergence of a history the rest of that history is not judged.", ref="DESIGN.md §5 C06"),
+ "C03": dict(technique="differential runtime monitoring vs a reference with persistent collections; aliases re-observed by the program after every update; uniqueness fast-path counter (H-cov) as reach evidence",
+             text="Exploration: seeded sequences of functional updates on hash maps, hash sets, lists, immutable vectors and strings under 13 aliasing patterns (unaliased / aliased with later or last use / closure / container / passed twice / library callback / apply / function parameter at last use or not / other thread / let chain); every alias and observer is re-emitted after every update and compared with the reference machine (top level, module, JIT off).",
+             note="Trusted: the reference's collections are persistent by construction. The engine's get_mut-unique counter must be > 0 for the in-place path to have been exercised.", ref="DESIGN.md §5 C03"),
+ "C08": dict(technique="template-driven differential runtime monitoring vs a reference machine with explicit continuation frames, winders list and handler stack; wind thunk traces; forced collections at every allocation",
+             text="Exploration: 20+ control-flow templates x 15 capture contexts x seeded parameters, compared with the reference machine on outcome, emitted values and the dynamic-wind trace; run at the top level, as a module, with the JIT off, and with a forced full collection at every (3rd) allocation with the freed-slot monitor armed.",
+             note="Trusted: vlib/schemeref.py's call/cc, dynamic-wind and with-handler. Re-entry from a later top-level form is checked for top-level evaluation only (in a module a form's continuation includes the following forms).", ref="DESIGN.md §5 C08"),
+ "C11": dict(technique="differential runtime monitoring vs structural equality of canonical renderings and Python sequence/dict/set models",
+             text="Exploration: generated pairs/triples of values of all kinds with explicit sharing and diamond DAGs (equal?, symmetry, transitivity, interchangeability as hash keys / set members) and seeded operation sequences on each collection kind, compared with the reference machine (top level, module, JIT off).",
+             note="Trusted: canonical rendering equality as the definition of structural equality; exact and inexact numbers differ; mutable vs immutable vectors are not cross-compared.", ref="DESIGN.md §5 C11"),
 }
 NOT_YET = "check not built yet in this session (planned in DESIGN.md §5); no claim is made"
 man = {
